@@ -1633,7 +1633,22 @@ static void do_source_file(const char *filename_in,
 
    if (did_open)
    {
-      fclose(pfout);
+      // the output is complete only if every write and the final flush worked
+      const bool write_failed = (ferror(pfout) != 0);
+
+      if (  fclose(pfout) != 0
+         || write_failed)
+      {
+         LOG_FMT(LERR, "%s: Failed to write %s: %s (%d)\n",
+                 __func__, filename_tmp.c_str(), strerror(errno), errno);
+
+         if (filename_tmp != filename_out)
+         {
+            // never replace the source file with an incomplete output
+            UNUSED(unlink(filename_tmp.c_str()));
+         }
+         exit(EX_IOERR);
+      }
 
       if (need_backup)
       {
